@@ -91,7 +91,7 @@ Definition pdotc (v : list poly) (c : list Q) : poly :=
 
 (* the polynomial  (v . c) o F  in the parameters of F *)
 Definition trace_dot (F : list poly) (v : list poly) (c : list Q) : poly :=
-  psubst (nthp F) (pdotc v c).
+  psubstn (nthp F) (pdotc v c).
 
 (* exact integral of a polynomial in n parameters over the reference n-simplex (Dirichlet's formula
    prod e_i! / (n + sum e_i)!) resp. over the unit n-cube (prod 1/(e_i+1)) — definitions *)
